@@ -516,7 +516,34 @@ fn round_trip(m: &AnyManifest, net: &NetworkDefinition, mock_blobs: bool) -> J {
     ev
 }
 
-fn run_cases(cases: Vec<J>, threads: usize) {
+/// Cases are read from stdin and processed in batches (the thorough tier feeds half a million
+/// cases: never hold all of them as JSON values).
+fn run_cases_streaming(threads: usize) {
+    use std::io::BufRead;
+    let stdin = std::io::stdin();
+    let mut o = Out::new();
+    let mut batch: Vec<J> = Vec::new();
+    let mut base = 0usize;
+    for line in stdin.lock().lines() {
+        let line = line.expect("stdin");
+        let t = line.trim();
+        if t.is_empty() {
+            continue;
+        }
+        batch.push(serde_json::from_str(t).expect("bad json line"));
+        if batch.len() >= 20000 {
+            let n = batch.len();
+            run_batch(std::mem::take(&mut batch), base, threads, &mut o);
+            base += n;
+        }
+    }
+    if !batch.is_empty() {
+        run_batch(batch, base, threads, &mut o);
+    }
+    o.flush();
+}
+
+fn run_batch(cases: Vec<J>, base: usize, threads: usize, o: &mut Out) {
     let n = cases.len();
     let chunk = (n + threads - 1) / threads.max(1);
     let cases = std::sync::Arc::new(cases);
@@ -550,18 +577,16 @@ fn run_cases(cases: Vec<J>, threads: usize) {
                     ev["kind"] = json!(k);
                     per.push(ev);
                 }
-                out.push(json!({"i": i, "per": per, "exp": case["exp"], "names": case["names"], "dec_exp": case["dec_exp"], "depth": case["depth"]}).to_string());
+                out.push(json!({"i": base + i, "per": per, "exp": case["exp"], "names": case["names"], "dec_exp": case["dec_exp"], "depth": case["depth"]}).to_string());
             }
             out
         }));
     }
-    let mut o = Out::new();
     for h in handles {
         for line in h.join().expect("worker thread") {
             o.emit(&serde_json::from_str::<J>(&line).unwrap());
         }
     }
-    o.flush();
 }
 
 // ---------------------------------------------------------------------------------------------
@@ -648,7 +673,7 @@ fn scenarios(max: usize) {
 pub fn run(mode: &str, args: &Args) {
     let threads = args.u64("threads", 4) as usize;
     match mode {
-        "run" => run_cases(read_lines(), threads),
+        "run" => run_cases_streaming(threads),
         "corpus" => {
             let input = read_lines();
             let files: Vec<String> = input[0]["files"].as_array().unwrap().iter().map(|t| t.as_str().unwrap().to_string()).collect();
